@@ -14,10 +14,10 @@ Model of the drawing add-on front end (DESIGN.md section 7, C18), core Lean only
     extrusion (0,0,±1).
 
 The model copies the code, not the intention:
-  * `Insert.transform(m)` computes the new x/y scale factors from the images of the OCS axes
-    (`ux.magnitude * xscale`), not from the images of the rotated block axes; for a nested INSERT rotated by
-    90° under a non-uniform `m` the resulting INSERT does NOT have the matrix `matrix44() @ m`
-    (finding F18, theorem `nested_insert_counterexample` in Props/C18.lean);
+  * `Insert.transform(m)` (InsertCoordinateSystem.transform, after fix 603b8b3fe) measures the new x/y scale factors on
+    the images of the block reference's own axes (OCS axes rotated by `rotation`); the pre-fix computation on the
+    unrotated OCS axes is kept as `transformInsPreFix` for the regression fact `regression_prefix_transform_unlawful`
+    in Props/C18.lean only;
   * vector norms: the model uses `|x| + |y|`, which is the Euclidean norm exactly for axis-aligned vectors;
     the model is therefore valid for rotations by multiples of 90° only (`Ins.dir` one of (±1,0), (0,±1));
     the orthogonality test of `InsertCoordinateSystem.transform` (`InsertTransformationError` fall-back) is
@@ -363,8 +363,29 @@ def xfOf (i : Ins) (base : P2) : Aff :=
 
 def transformAttrib (m : Aff) (a : Attrib) : Attrib := { a with pos := m.apply a.pos }
 
-/-- `Insert.transform(m)` = `InsertCoordinateSystem.transform` + `attrib.transform(m)` for every attached ATTRIB -/
+/-- `Insert.transform(m)` = `InsertCoordinateSystem.transform` + `attrib.transform(m)` for every attached ATTRIB.
+    `x_axis = ocs.to_wcs(Vec3.from_angle(angle))`, `y_axis = ocs.to_wcs(Vec3.from_angle(angle + pi/2))` -/
 def transformIns (m : Aff) (i : Ins) : Ins :=
+  let ex := exSign i.flip
+  let ux := m.lin (ocsFlip i.flip i.dir)
+  let uy := m.lin (ocsFlip i.flip ⟨-i.dir.y, i.dir.x⟩)
+  let xs := mag ux * i.sx
+  let ys := mag uy * i.sy
+  let uxn := unit ux
+  let uyn := unit uy
+  -- expected_uy = uz.cross(ux), uz = (0, 0, ez)
+  let expected : P2 := ⟨-(ex * uxn.y), ex * uxn.x⟩
+  let ys := if expected = uyn then ys else -ys
+  { i with
+    pos := ocsFlip i.flip (m.apply (ocsFlip i.flip i.pos))
+    sx := xs
+    sy := ys
+    dir := unit (ocsFlip i.flip (m.lin (ocsFlip i.flip i.dir)))
+    attribs := i.attribs.map (transformAttrib m) }
+
+/-- the computation BEFORE fix 603b8b3fe (scale factors from the images of the unrotated OCS axes); not used by the
+    model, only by the regression fact in Props/C18.lean -/
+def transformInsPreFix (m : Aff) (i : Ins) : Ins :=
   let ex := exSign i.flip
   let ux := m.lin ⟨ex, 0⟩
   let uy := m.lin ⟨0, 1⟩
@@ -372,7 +393,6 @@ def transformIns (m : Aff) (i : Ins) : Ins :=
   let ys := mag uy * i.sy
   let uxn := unit ux
   let uyn := unit uy
-  -- expected_uy = uz.cross(ux), uz = (0, 0, ez)
   let expected : P2 := ⟨-(ex * uxn.y), ex * uxn.x⟩
   let ys := if expected = uyn then ys else -ys
   { i with
@@ -520,34 +540,30 @@ def Forest.append : Forest → Forest → Forest
   | .nil, g => g
   | .cons t f, g => .cons t (Forest.append f g)
 
-/-- `Insert.transform(m)` is lawful for `i`: the transformed INSERT has the matrix `matrix44(i) @ m`, its
-    ATTRIBs are in place -/
+/-- `Insert.transform(m)` is lawful for `i`: the transformed INSERT has the matrix `matrix44(i) @ m` -/
 def lawful (m : Aff) (i : Ins) (base : P2) : Bool :=
   decide (xfOf (transformIns m i) base = (xfOf i base).comp m)
 
-/-- Unfolding of the block graph into the block tree under the current transformation `m`;
-    `none` if a block is missing, the nesting is deeper than `fuel`, or an `Insert.transform` on the way is
-    not lawful. -/
-def unfold (doc : Doc) : Nat → Aff → List Ent → Option Forest
-  | _, _, [] => some .nil
-  | fuel, m, .leaf k p pts :: es =>
-    match unfold doc fuel m es with
+/-- Unfolding of the block graph into the block tree; `none` if a block is missing or the nesting is deeper than
+    `fuel` (cycle). -/
+def unfold (doc : Doc) : Nat → List Ent → Option Forest
+  | _, [] => some .nil
+  | fuel, .leaf k p pts :: es =>
+    match unfold doc fuel es with
     | some rest => some (.cons (.leaf k p pts) rest)
     | none => none
-  | 0, _, .ins _ :: _ => none
-  | fuel' + 1, m, .ins i :: es =>
+  | 0, .ins _ :: _ => none
+  | fuel' + 1, .ins i :: es =>
     match doc.find i.name with
     | none => none
     | some blk =>
-      if lawful m i blk.base then
-        match unfold doc fuel' ((xfOf i blk.base).comp m) (blk.ents.filter (fun e => !isAttdef e)) with
+      match unfold doc fuel' (blk.ents.filter (fun e => !isAttdef e)) with
+      | none => none
+      | some ch =>
+        match unfold doc (fuel' + 1) es with
+        | some rest => some (.cons (.node i blk.base ch) rest)
         | none => none
-        | some ch =>
-          match unfold doc (fuel' + 1) m es with
-          | some rest => some (.cons (.node i blk.base ch) rest)
-          | none => none
-      else none
-termination_by fuel _ ents => (fuel, ents.length)
+termination_by fuel ents => (fuel, ents.length)
 decreasing_by
   all_goals simp_wf
   all_goals first
@@ -583,12 +599,9 @@ def AxisUnit (d : P2) : Prop := d = ⟨1, 0⟩ ∨ d = ⟨0, 1⟩ ∨ d = ⟨-1,
 def Monomial (m : Aff) : Prop :=
   (m.b = 0 ∧ m.c = 0 ∧ m.a ≠ 0 ∧ m.d ≠ 0) ∨ (m.a = 0 ∧ m.d = 0 ∧ m.b ≠ 0 ∧ m.c ≠ 0)
 
-/-- same absolute scale factor along both axes -/
-def UniformScale (m : Aff) : Prop := rabs m.a + rabs m.b = rabs m.c + rabs m.d
-
-/-- a block reference rotated by a multiple of 90° with the same absolute scale along x and y (mirrors allowed) -/
-def InsUniform (i : Ins) : Prop := AxisUnit i.dir ∧ i.sx ≠ 0 ∧ rabs i.sx = rabs i.sy
-def EntsUniform (ents : List Ent) : Prop := ∀ i, Ent.ins i ∈ ents → InsUniform i
-def DocUniform (doc : Doc) : Prop := ∀ b ∈ doc.blocks, EntsUniform b.ents
+/-- a block reference of the modelled class: rotated by a multiple of 90°, non-zero scale factors (mirrors allowed) -/
+def InsQuarter (i : Ins) : Prop := AxisUnit i.dir ∧ i.sx ≠ 0 ∧ i.sy ≠ 0
+def EntsQuarter (ents : List Ent) : Prop := ∀ i, Ent.ins i ∈ ents → InsQuarter i
+def DocQuarter (doc : Doc) : Prop := ∀ b ∈ doc.blocks, EntsQuarter b.ents
 
 end EzdxfVerif.Render
